@@ -432,6 +432,9 @@ pub fn build(full_name: &str, level: u8) -> Option<Scenario> {
                     c.beats = (l as u8).min(2);
                     c.reorders = 0;
                 }
+                if n.contains("-fetch") {
+                    c.fetches = 1;
+                }
                 if n.contains("-elect") {
                     c.timeouts = 2;
                     c.props = if live { 1 } else { 2 } + (l as u8) / 2;
@@ -614,6 +617,11 @@ pub fn build(full_name: &str, level: u8) -> Option<Scenario> {
                 for nd in s.nodes.iter_mut() {
                     nd.lease_read = true;
                     nd.check_quorum = true;
+                }
+            }
+            if n.contains("-nofwd") {
+                for nd in s.nodes.iter_mut() {
+                    nd.disable_forwarding = true;
                 }
             }
             s.clients_at = vec![1, 2];
